@@ -300,3 +300,15 @@ Definition check_conflicting_fields : bool :=
 (* no field of Pegnetd / BlockSync other than the expected ones is written by either root *)
 Definition check_no_other_shared_writes : bool :=
   forallb (fun r => implb (is_w r) (mem (fld_name r) expected_sync_written_fields)) shared_fields.
+
+(* ------------------------------------------------------------------ C02: durability settings *)
+(* The crash-consistency argument rests on SQLite's atomic commit: the rollback journal (or the WAL)
+   has to be on disk and synchronous writes must not be switched off.  The PRAGMA values of the
+   connection pegnet.Init() opens are regenerated into Gen/Schema.v on every run. *)
+From Gen Require Import Schema.
+Definition pragma (name : string) : string :=
+  match find (fun p => fst p =? name) db_pragmas with Some p => snd p | None => "" end.
+Definition check_journal_on_disk : bool :=
+  mem (pragma "journal_mode") ["delete"; "truncate"; "persist"; "wal"].
+Definition check_synchronous_on : bool :=
+  mem (pragma "synchronous") ["1"; "2"; "3"].
